@@ -25,7 +25,8 @@ EXTENDS Integers, Sequences, FiniteSets, TLC, Json
 
 CONSTANTS NB,        \* size of the blank label pool
           MinQ, MaxQ,\* dataset sizes
-          Shard, NShards, \* enumerate only the classes with Hash(Key) % NShards = Shard
+          Shard, NShards, \* of the datasets with at least ShardFrom quads only the classes of one shard are selected
+          ShardFrom,
           Emit
 
 VARIABLE val
@@ -88,7 +89,7 @@ InShard(D) == (Sum(SkelOf, D) % NShards) = Shard
 Init == val = {}
 Next == /\ Cardinality(val) < MaxQ
         /\ \E c \in 0 .. (Q - 1) : (\A x \in val : x < c) /\ val' = val \cup {c}
-Selected == Cardinality(val) >= MinQ /\ InShard(val)
+Selected == Cardinality(val) >= MinQ /\ (Cardinality(val) < ShardFrom \/ InShard(val))
 Spec == Init /\ [][Next]_vars
 
 (***************************** theorems (R1) ********************************)
